@@ -1221,8 +1221,8 @@ class Interp:
                     if 'staticmethod' in m.decorators:
                         return FuncRef(m, module=m.module)
                     return FuncRef(m, obj.recv, True, module=m.module)
-            if name == '__init__':
-                return Builtin('object.__init__')
+            if name in ('__init__', '__init_subclass__'):
+                return Builtin('object.' + name)
             raise Unsupported(f'super().{name} not found on the repo MRO of {obj.cls}')
         if isinstance(obj, Obj):
             if name in obj.fields:
@@ -1627,6 +1627,8 @@ class Interp:
             return ExcVal(name, tuple(args))
         if name == 'super' and env is not None:
             return self._super(args, env, node)
+        if name in ('object.__init__', 'object.__init_subclass__'):
+            return None
         h = getattr(self, 'b_' + name.replace('.', '_'), None)
         if h is not None:
             return h(args, kwargs, node)
@@ -1734,6 +1736,16 @@ class Interp:
 
     def b_frozenset(self, args, kwargs, node):
         return frozenset(self.iterate(args[0], node)) if args else frozenset()
+
+    def b_dict_fromkeys(self, args, kwargs, node):
+        keys = list(self.iterate(args[0], node))
+        val = args[1] if len(args) > 1 else None
+        d: Dict[Any, Any] = {}
+        for k in keys:
+            if not _hashable(k):
+                raise Raised(ExcVal('TypeError', ('unhashable',)))
+            d.setdefault(k, val)
+        return d
 
     def b_dict(self, args, kwargs, node):
         d: Dict[Any, Any] = {}
